@@ -29,6 +29,7 @@ Definition check_instr (a : list abs) (i : nat) (ins : instr) : bool :=
   | ILock m => negb (mem m (locks H)) && eqa nx (mkA (m :: locks H) (hascur H))
   | IUnlock m => mem m (locks H) && eqa nx (mkA (rem m (locks H)) (hascur H))
   | IWait c m => mem m (locks H) && eqa nx H
+  | ITimedWait c m => mem m (locks H) && eqa nx H
   | IWr x _ => guarded (gv x) (locks H) && eqa nx H
   | IInc x => guarded (gv x) (locks H) && eqa nx H
   | IDec x => guarded (gv x) (locks H) && eqa nx H
@@ -109,7 +110,7 @@ Definition habs (th : thread) (o : nat -> Prop) : Prop :=
   | NotStarted | Fresh => pc th = 0 /\ cur th = None /\ (forall m, ~ o m)
   | Ready => (forall m, o m <-> In m (locks (ann th))) /\ iscur th = hascur (ann th)
   | Asleep _ m | Woken m =>
-      (exists c, fetch P th = IWait c m) /\
+      (exists c, fetch P th = IWait c m \/ fetch P th = ITimedWait c m) /\
       (forall m', o m' <-> In m' (rem m (locks (ann th)))) /\ iscur th = hascur (ann th)
   | Done => (forall m, ~ o m) /\ cur th = None
   end.
@@ -279,7 +280,7 @@ Proof.
         -- intros u Hu. cbn. rewrite upd_other by exact Hu. left; reflexivity.
         -- intros u m0 Hu. cbn. unfold upd. destruct (Nat.eqb m0 m) eqn:Em; [|tauto].
            apply Nat.eqb_eq in Em. subst m0. rewrite Eo. split; intros X; [discriminate|inversion X; congruence].
-        -- cbn. rewrite upd_same. unfold habs. cbn. split; [exists c; exact EI|]. split.
+        -- cbn. rewrite upd_same. unfold habs. cbn. split; [exists c; left; exact EI|]. split.
            ++ intros m0. unfold owns. cbn. rewrite rem_In. unfold upd. destruct (Nat.eqb m0 m) eqn:Em.
               ** apply Nat.eqb_eq in Em. subst. split; [discriminate|intros [_ X]; congruence].
               ** apply Nat.eqb_neq in Em. fold H. rewrite (Hown m0). tauto.
@@ -392,12 +393,38 @@ Proof.
          | intros; cbn; tauto
          | cbn; rewrite upd_same;
            eapply ready_intro; [exact Est| unfold ann at 1; cbn; eassumption | intros m0; apply Hown | reflexivity ] ]).
+      (* ITimedWait *)
+      * destruct (own s m) as [o|] eqn:Eo; [|inversion E; subst s'; exact I].
+        destruct (Nat.eqb o t) eqn:Eot; [|inversion E; subst s'; exact I].
+        apply Nat.eqb_eq in Eot. subst o. inversion E; subst s'; clear E.
+        eapply inv_frame with (t := t); [exact I| |reflexivity| |].
+        -- intros u Hu. cbn. rewrite upd_other by exact Hu. left; reflexivity.
+        -- intros u m0 Hu. cbn. unfold upd. destruct (Nat.eqb m0 m) eqn:Em; [|tauto].
+           apply Nat.eqb_eq in Em. subst m0. rewrite Eo. split; intros X; [discriminate|inversion X; congruence].
+        -- cbn. rewrite upd_same. unfold habs. cbn. split; [exists c; right; exact EI|]. split.
+           ++ intros m0. unfold owns. cbn. rewrite rem_In. unfold upd. destruct (Nat.eqb m0 m) eqn:Em.
+              ** apply Nat.eqb_eq in Em. subst. split; [discriminate|intros [_ X]; congruence].
+              ** apply Nat.eqb_neq in Em. fold H. rewrite (Hown m0). tauto.
+           ++ exact Hcur.
+    + (* Asleep in a timed wait: time-out *)
+      destruct (fetch P (thr s t)) eqn:EIa; try discriminate E.
+      inversion E; subst s'; clear E.
+      destruct It as (Hf & Hown & Hcur).
+      eapply inv_frame with (t := t); [exact I| |reflexivity| |].
+      * intros u Hu. cbn. rewrite upd_other by exact Hu. left; reflexivity.
+      * intros; cbn; tauto.
+      * cbn. rewrite upd_same. unfold habs. cbn. split; [|split].
+        -- destruct Hf as (c1 & Hf). exists c1. rewrite <- EIa in Hf. exact Hf.
+        -- exact Hown.
+        -- exact Hcur.
     + (* Woken m: re-acquire *)
       destruct (negb (live s m)); [inversion E; subst s'; exact I|].
       destruct (own s m) eqn:Eo; [discriminate|]. inversion E; subst s'; clear E.
       destruct It as ((c & EI) & Hown & Hcur).
-      pose proof (check_at (thr s t)) as C. unfold check_instr in C. rewrite EI in C.
-      fold (ann (thr s t)) in C. bools.
+      pose proof (check_at (thr s t)) as C. unfold check_instr in C.
+      destruct EI as [EI|EI]; rewrite EI in C;
+      fold (ann (thr s t)) in C; bools.
+      1: {
       eapply inv_frame with (t := t); [exact I| |reflexivity| |].
       * intros u Hu. cbn. rewrite upd_other by exact Hu. left; reflexivity.
       * intros u m0 Hu. cbn. unfold upd. destruct (Nat.eqb m0 m) eqn:Em; [|tauto].
@@ -409,6 +436,20 @@ Proof.
            ++ apply Nat.eqb_eq in Em. subst. split; [intros _; apply mem_In; assumption|reflexivity].
            ++ apply Nat.eqb_neq in Em. rewrite (Hown m0). rewrite rem_In. tauto.
         -- exact Hcur.
+      }
+      {
+      eapply inv_frame with (t := t); [exact I| |reflexivity| |].
+      * intros u Hu. cbn. rewrite upd_other by exact Hu. left; reflexivity.
+      * intros u m0 Hu. cbn. unfold upd. destruct (Nat.eqb m0 m) eqn:Em; [|tauto].
+        apply Nat.eqb_eq in Em. subst m0. rewrite Eo. split; intros X; [inversion X; congruence|discriminate].
+      * cbn. rewrite upd_same. eapply ready_intro.
+        -- reflexivity.
+        -- unfold ann at 1. cbn. eassumption.
+        -- intros m0. unfold owns. cbn. unfold upd. destruct (Nat.eqb m0 m) eqn:Em.
+           ++ apply Nat.eqb_eq in Em. subst. split; [intros _; apply mem_In; assumption|reflexivity].
+           ++ apply Nat.eqb_neq in Em. rewrite (Hown m0). rewrite rem_In. tauto.
+        -- exact Hcur.
+      }
   - (* spurious wake-up *)
     destruct (t <? nthr s); cbn [negb] in E; [|discriminate].
     destruct (stat (thr s t)) eqn:Est; try discriminate.
@@ -496,6 +537,7 @@ Proof.
              | match ?x with _ => _ end = _ => destruct x
              end;
       inversion E; subst; cbn; rewrite ?fault_wake, ?fault_wakes; cbn; congruence.
+    + destruct (fetch P (thr s t)); try discriminate E. inversion E; subst; cbn; congruence.
     + destruct (negb (live s m)); [inversion E; subst; cbn; congruence|].
       destruct (own s m); [discriminate|]. inversion E; subst; cbn; congruence.
   - destruct (t <? nthr s); cbn [negb] in E; [|discriminate].
